@@ -325,20 +325,29 @@ func (c *Client) getCachedConfig(cacheDir string) (*Config, error) {
 		return nil, fmt.Errorf("no cached versions available")
 	}
 
-	// Get the latest file (files are sorted in descending order by timestamp)
-	latestFile := files[0]
-
-	data, err := os.ReadFile(latestFile)
-	if err != nil {
-		return nil, fmt.Errorf("failed to read cached config: %w", err)
+	// Use the latest file that can be read and parsed (files are sorted in
+	// descending order by timestamp). A cache file may be unreadable or
+	// truncated, e.g. when a writer was interrupted; an older valid version is
+	// then still better than no cached config at all.
+	var firstErr error
+	for _, file := range files {
+		data, err := os.ReadFile(file)
+		if err != nil {
+			err = fmt.Errorf("failed to read cached config: %w", err)
+		} else {
+			var config Config
+			if err = json.Unmarshal(data, &config); err == nil {
+				return &config, nil
+			}
+			err = fmt.Errorf("failed to parse cached config: %w", err)
+		}
+		log.Debugf("skipping cache file %s: %v", file, err)
+		if firstErr == nil {
+			firstErr = err
+		}
 	}
 
-	var config Config
-	if err := json.Unmarshal(data, &config); err != nil {
-		return nil, fmt.Errorf("failed to parse cached config: %w", err)
-	}
-
-	return &config, nil
+	return nil, firstErr
 }
 
 // getCached returns the latest cached config with metadata
